@@ -89,6 +89,27 @@ def guardMprodList (x : Sh) (nModes : Nat) (fm : List (Nat × Nat × Nat)) : Out
   else if fm.length ≠ nModes then .err .InvalidArguments
   else mprodLoop x.N fm
 
+/-- product of a list of mode sizes -/
+def prodL : List Nat → Nat
+  | [] => 1
+  | n :: ns => n * prodL ns
+
+/-- the grouping loop of `x.qtt_to_tens(original_shape)`: cores are merged until the running mode size equals the next entry of the
+    target shape; `original_shape[k]` is read for EVERY core (an exhausted shape list is Python's `IndexError`); after the loop
+    `k != len(original_shape)` is `ShapeMismatch`.  `acc` is the running mode size of the group being assembled. -/
+def qttGo : List Nat → List Nat → Option Nat → Outcome
+  | [], [], none => .ok
+  | [], [], some _ => .err .ShapeMismatch      -- unreachable from `acc = none`: an open group means the shape was not exhausted
+  | [], _ :: _, _ => .err .ShapeMismatch
+  | _ :: _, [], _ => .err .Other
+  | n :: ns, s :: ss, acc =>
+    let sf := match acc with | none => n | some a => a * n
+    if sf = s then qttGo ns ss none else qttGo ns (s :: ss) (some sf)
+
+/-- `x.qtt_to_tens(original_shape)` (a TT-matrix operand produces no cores and the constructor raises) -/
+def guardQttToTens (x : Sh) (shape : List Nat) : Outcome :=
+  if x.isTTM then .err .Other else qttGo x.N shape none
+
 /-- `pad(x, padding)` -/
 def guardPad (d npad : Nat) : Outcome := if npad > d then .err .InvalidArguments else .ok
 
